@@ -59,6 +59,13 @@ def race(draw, ctx):
             units.append("unit %d type=ult named=0 pool=%d : %s" %
                          (r, draw(st.integers(0, npools - 1)), "; ".join(rprog)))
             main_ops.append("create %d" % r)
+    # the streams may be joined while resumes from other threads are still in flight: a
+    # suspended ULT keeps its stream alive (blocked count) until it has been resumed, pushed
+    # back and has run - "exactly once per resume" includes the last one
+    if nxs > 1 and draw(st.booleans()):
+        for x in draw(st.permutations(list(range(1, nxs)))):
+            if draw(st.integers(0, 2)) > 0:
+                tail.append("%s %d" % (draw(st.sampled_from(["xsjoin", "xsjoin", "xsfree"])), x))
     for i, p in enumerate(exts):
         lines.append("ext %d : %s" % (i, "; ".join(p)))
     lines += units
